@@ -72,11 +72,11 @@ PROPERTIES = {
         'explanation': 'per-bunch functional postconditions (ghost cell n,x,y) and frames of every transport map',
     },
     'C15': {
-        'units': [sm.KickMapApplyTo, sm.FokkerPlanckApplyTo, sm.UpdateSM, sm.CalcCoefficiants, io.HDF5AppendTracks],
-        'leaves': [leaf.FPApplyToLeaf, leaf.KickApplyToLeaf, leaf.PSxLeaf],
+        'units': [sm.KickMapApplyTo, sm.FokkerPlanckApplyTo, sm.UpdateSM, sm.CalcCoefficiants, io.HDF5AppendTracks, mainspec.MainTrackingFile],
+        'leaves': [leaf.FPApplyToLeaf, leaf.KickApplyToLeaf, leaf.PSxLeaf, leaf.PSyLeaf],
         'lemmas': [sm.lemmas_weights],
         'level': 'other',
-        'claim': 'a tracked particle is displaced by minus the linearly interpolated offset (the displacement of the charge, by the k=1 moment lemma), every map keeps both '
+        'claim': 'every particle read from the tracking file starts on the grid whatever the file holds (main reading loop; clamps bit-precisely for every float incl. NaN); a tracked particle is displaced by minus the linearly interpolated offset (the displacement of the charge, by the k=1 moment lemma), every map keeps both '
                  'coordinates on the grid, the stochastic model is an Ornstein-Uhlenbeck step about the zero-energy bin; for every real position/offset (ideal arithmetic)',
         'assumptions': [A_IDEAL, A_LIB, DROPS, 'random draws are unconstrained reals', 'HDF5File::appendTracks requires every coordinate in [0, N-1] — the range the tracking maps are proved to keep'],
         'uncovered': ['statistical statement that an ensemble keeps mean and width (consequence of the OU step, not machine-checked)',
@@ -183,8 +183,8 @@ PROPERTIES = {
         'units': SM_KICK + SM_FP + [sm.IdentityApply, sm.KickMapApplyTo, sm.FokkerPlanckApplyTo,
                                     ps.RulerCtor, ps.SimpsonWeights, ps.UpdateXProjection, ps.UpdateYProjection, ps.Integrate, ps.Normalize, ps.Average, ps.Variance, ps.Swap, ps.MakePSFromTXTLoop, ps.PhaseSpaceCtor, ps.PhaseSpaceCtor8, ps.PhaseSpaceCtor12, ps.PhaseSpaceCopyCtor, ps.CreateFromProjections, ps.Gaus,
                                     ef.PadBunchProfiles, ef.WakePotential, ef.UpdateCSR, ef.ElectricFieldCtor, ef.ElectricFieldCtor11, ef.InitWakeLossFFT,
-                                    mainspec.MainConfig, io.HDF5FileSources, io.HDF5AppendField, io.HDF5AppendTracks, io.ReadPhaseSpace] + Z_UNITS,
-        'leaves': [leaf.UpperPow2Leaf, leaf.FPApplyToLeaf, leaf.KickApplyToLeaf, leaf.PSxLeaf],
+                                    mainspec.MainConfig, mainspec.MainTrackingFile, io.HDF5FileSources, io.HDF5AppendField, io.HDF5AppendTracks, io.ReadPhaseSpace] + Z_UNITS,
+        'leaves': [leaf.UpperPow2Leaf, leaf.FPApplyToLeaf, leaf.KickApplyToLeaf, leaf.PSxLeaf, leaf.PSyLeaf],
         'lemmas': [],
         'level': 'other',
         'claim': 'every array subscript, pointer range (copy_n/fill_n/inner_product/FFT buffers), float-to-integer conversion, signed overflow, unsigned index product and division in the units under contract '
